@@ -695,7 +695,7 @@ fn gen_listing(r: &mut Rng, i: usize) -> (Vec<u8>, &'static str) {
         let frac: String = match r.below(if damaged { 6 } else { 3 }) {
             0 => String::new(),
             1 => format!(".{:010}", r.below(10_000_000_000)),
-            2 => ".0000000000".into(),
+            2 => (*r.pick(&[".0000000000", ".9999999999", ".999999999", ".999999881", ".99999999999999999999"])).into(),
             3 => ".".into(),
             4 => ".5.5".into(),
             _ => ".\t9".into(),
